@@ -55,6 +55,8 @@ pub enum FnRes {
     Fail(String),
     /// fails with an error whose concrete type is reval::Error (InvalidType)
     FailType,
+    /// twice the Int argument (the README's example function); fails on anything else
+    Double,
 }
 
 tokio::task_local! {
@@ -137,6 +139,10 @@ impl UserFunction for ModelFn {
             FnRes::Echo => Ok(params),
             FnRes::Fail(m) => Err(anyhow::anyhow!("{}", m)),
             FnRes::FailType => Err(reval::Error::InvalidType.into()),
+            FnRes::Double => match params {
+                Value::Int(i) => i.checked_mul(2).map(Value::Int).ok_or_else(|| anyhow::anyhow!("not a small int")),
+                _ => Err(anyhow::anyhow!("not a small int")),
+            },
         }
     }
     fn name(&self) -> &'static str {
@@ -161,6 +167,7 @@ pub fn modelfn_from_model(j: &J, log: Arc<Log>) -> Result<ModelFn, String> {
                 Some("v") => FnRes::Val(from_model(&r["v"])?),
                 Some("fail") => FnRes::Fail(uncps(&r["msg"])?),
                 Some("failtype") => FnRes::FailType,
+                Some("double") => FnRes::Double,
                 Some("counter") => FnRes::Counter,
                 Some("tagged") => FnRes::Tagged,
                 Some("echo") => FnRes::Echo,
